@@ -445,6 +445,16 @@ pub fn elements_for_gadgets(ctx: &Ctx, rng: &mut rand_chacha::ChaCha20Rng, nrand
 pub fn field_inputs_decode(ctx: &Ctx, rng: &mut rand_chacha::ChaCha20Rng, nrand: usize) -> Vec<(B, &'static str)> {
     let c = &ctx.c;
     let q = &c.f.p;
+    let mut extra: Vec<(B, &'static str)> = Vec::new();
+    // near-valid rejects: non-square discriminant although the candidate point lies on the curve
+    for s in crate::eng::decode_nonsquare_oncurve(ctx, rng) {
+        extra.push((s.clone(), "nonsquare-candidate-on-curve"));
+        extra.push((c.f.neg(&s), "nonsquare-candidate-on-curve"));
+    }
+    // special field values (sqrt(-1), zeta, 1/2, d, ...) as encodings
+    for v in [c.zeta.clone(), c.f.inv(&c.zeta).unwrap(), c.d.clone(), c.f.inv(&b(2)).unwrap(), c.f.sqrt(&c.f.neg(&b(1))).unwrap()] {
+        extra.push((c.f.abs(&v), "special field value"));
+    }
     let mut v: Vec<(B, &'static str)> = vec![
         (b(0), "s=0"),
         (b(8), "s=8"),
@@ -476,5 +486,6 @@ pub fn field_inputs_decode(ctx: &Ctx, rng: &mut rand_chacha::ChaCha20Rng, nrand:
         let r = crate::zoo::rand_below(rng, q);
         v.push((r, "random"));
     }
+    v.extend(extra);
     v
 }
